@@ -38,7 +38,7 @@ Proof.
   rewrite close_rev_nodup in Hev by (rewrite map_fst_combine by (cbn [length]; lia); constructor; assumption).
   cbn [combine close] in Hev.
   cbn [map fold_left].
-  eapply (sim_apps _ _ args (sim_beta_rec name p1 (lams ps body) a1)).
+  eapply (sim_apps _ _ args (sim_beta_rec name p1 (lams ps body) a1 ltac:(intros ->; apply Hname; left; reflexivity))).
   rewrite !subst_lams by (intros Hc; first [apply Hp1, Hc | apply Hname; right; exact Hc]).
   apply (sim_lams ps args _ Hnd2 Hlps).
   rewrite (subst_subst_comm name p1) by (intros ->; apply Hname; left; reflexivity).
